@@ -254,6 +254,47 @@ fn generate(rep: &mut Report, seed: u64, index: u64, steps: usize) -> Hist {
                 }
             }
         }
+        // two events sized from the map as it is now so that the first ends exactly at the end of the backing file (a
+        // completely used map) and the second 3 bytes before it (the next store pads up to the end before it grows),
+        // each followed by a small store: kills inside those stores meet an end marker equal to the file length
+        if is_debug_build() {
+            use std::os::unix::fs::FileExt;
+            for slack in [0usize, 3] {
+                if eng.aborted {
+                    break;
+                }
+                let mut sized: Option<SemEvent> = None;
+                if let Ok(f) = std::fs::File::open(eng.dir.join("event.map")) {
+                    let mut hdr = [0u8; 8];
+                    if f.read_exact_at(&mut hdr, 0).is_ok() {
+                        let end = u64::from_le_bytes(hdr) as usize;
+                        let flen = f.metadata().map(|m| m.len() as usize).unwrap_or(0);
+                        let start = (end + 7) / 8 * 8;
+                        if let Some(base) = Ev::new(mk(&mut rng, 1, 340, vec![], 0)) {
+                            // too little room left: fill to the end of the NEXT chunk instead
+                            let target = if flen > start + base.bytes.len() + slack { flen } else { flen + 2048 };
+                            let clen = target - slack - start - base.bytes.len();
+                            sized = Some(mk(&mut rng, 1, 340, vec![], clen));
+                        }
+                    }
+                }
+                for d in sized.into_iter().chain([mk(&mut rng, 1, 341, vec![], 5)]) {
+                    if let Some(ev) = Ev::new(d) {
+                        let offs_before = eng.offsets.len();
+                        let before = eng.ops.len();
+                        let _ = eng.store(&ev);
+                        if eng.ops.len() > before {
+                            if eng.offsets.len() > offs_before {
+                                outcomes.push(Outcome::Ok(eng.offsets.last().unwrap().1));
+                            } else {
+                                outcomes.push(Outcome::Err(ErrClass::Other("refused".into())));
+                            }
+                        }
+                    }
+                }
+                rep.count("stores_ending_at_or_just_before_the_end_of_the_map_file");
+            }
+        }
         rep.count("histories_with_directed_growth_tail");
     }
     let ops = eng.ops.clone();
